@@ -1,11 +1,21 @@
 pub mod rectx;
 pub mod c01;
+pub mod c02;
+pub mod c03;
+pub mod c05;
+pub mod c18;
+pub mod c19;
 
 use crate::util::*;
 
 pub fn run(p: &Params, rep: &mut Report) -> bool {
     match p.prop.as_str() {
         "C01" => c01::run(p, rep),
+        "C02" => c02::run(p, rep),
+        "C03" => c03::run(p, rep),
+        "C05" => c05::run(p, rep),
+        "C18" => c18::run(p, rep),
+        "C19" => c19::run(p, rep),
         _ => return false,
     }
     true
@@ -14,6 +24,11 @@ pub fn run(p: &Params, rep: &mut Report) -> bool {
 pub fn replay(prop: &str, kind: &str, text: &str, seed: u64, rep: &mut Report) -> bool {
     match prop {
         "C01" => c01::replay(kind, text, seed, rep),
+        "C02" => c02::replay(kind, text, seed, rep),
+        "C03" => c03::replay(kind, text, seed, rep),
+        "C05" => c05::replay(kind, text, seed, rep),
+        "C18" => c18::replay(kind, text, seed, rep),
+        "C19" => c19::replay(kind, text, seed, rep),
         _ => false,
     }
 }
